@@ -325,6 +325,11 @@ def _check_global(case):
             short.append(np.log2(e1 / e2) < p - (0.7 if 2.0 / N1 <= 0.35 else 0.85))
     if not ratios:
         return [], dict(nontrivial=False, labels=labels + ["inconclusive:below_floor"])
+    if len(ratios) == 1 and not (errs[2] > floor):
+        # only the coarsest pair (h x rate = 0.5 -> 0.25) is above the rounding floor: pre-asymptotic ratios of 2^4.1 were
+        # seen there for DOPRI45 (order 5; the next pair, below the floor, gave 2^4.6) - no verdict from it alone. A method
+        # that really is an order short has larger errors and keeps both pairs above the floor.
+        return [], dict(nontrivial=False, labels=labels + ["inconclusive:only_coarsest_pair_above_floor"])
     best = max(ratios)
     observed = float(np.log2(best))
     if all(short):
